@@ -12,6 +12,8 @@
 //           direct = 1 iff GCMEncrypt / GCMDecrypt return the same values as Sm4GCM
 //           oracle = 1 iff C||T = cipher.NewGCMWithNonceSize(sm4.NewCipher(key), len(IV)).Seal(nil, IV, P, A)
 //                    (what the TLS suites use) and its Open returns P
+//   B id ...                   as G, for the two 64 KiB cases of the quick tier: the extracted model skips them (it needs ~25 s
+//                              each); they are checked against crypto/cipher and the python GCM only
 //   V id key iv a c t expect   Sm4GCM(key, iv, c, a, false) on inputs of which at most one bit differs from a
 //                              genuine (iv, a, c, t)  -> ok <recomputed tag> <p>
 //   Q id calls                 a HISTORY on reused caller buffers.  calls = fn:key:iv:a:x,... (fn = S1 | S0 | E | D | H for
@@ -56,7 +58,7 @@ func runCase(line string) string {
 	id := f[1]
 	res, _ := hx.Guard(deadline, func() string {
 		switch f[0] {
-		case "G":
+		case "G", "B":
 			key := hx.UnHex(f[2])
 			keyKeep := append([]byte{}, key...)
 			arrIV, iv := place(hx.UnHex(f[3]), hx.UnHex(f[6]))
@@ -290,14 +292,20 @@ func gen(seed uint64, tier string, o *hx.Out) {
 	// RFC 8998 A.1
 	g(std, hx.UnHex("00001234567800000000abcd"), hx.UnHex("feedfacedeadbeeffeedfacedeadbeefabaddad2"),
 		hx.UnHex("aaaaaaaaaaaaaaaabbbbbbbbbbbbbbbbccccccccccccccccddddddddddddddddeeeeeeeeeeeeeeeeffffffffffffffffeeeeeeeeeeeeeeeeaaaaaaaaaaaaaaaa"))
-	// IV lengths 1..64 with short and medium data
-	per := 2
+	// IV lengths 1..64, each with 6 (thorough 14) (|A|,|P|) shapes: block-boundary lengths first, then random
+	shapes := [][2]int{{0, 0}, {16, 16}, {1, 15}, {17, 33}, {15, 32}, {32, 17}, {0, 31}, {31, 0}, {33, 48}, {20, 64}, {48, 1}, {13, 80}}
+	per := 6
 	if thorough {
-		per = 12
+		per = 14
 	}
 	for n := 1; n <= 64; n++ {
 		for k := 0; k < per; k++ {
-			g(r.Bytes(16), genIV(r, n), r.Bytes(r.Intn(40)), r.Bytes(r.Intn(70)))
+			la, lp := r.Intn(40), r.Intn(70)
+			if k < 4 || (thorough && k < 10) {
+				sh := shapes[(n*5+k)%len(shapes)]
+				la, lp = sh[0], sh[1]
+			}
+			g(r.Bytes(16), genIV(r, n), r.Bytes(la), r.Bytes(lp))
 		}
 	}
 	// |A|, |P| in 0..80: exhaustive grid in thorough, sampled in quick, at a few IV lengths
@@ -305,13 +313,9 @@ func gen(seed uint64, tier string, o *hx.Out) {
 		for la := 0; la <= 80; la++ {
 			for lp := 0; lp <= 80; lp++ {
 				if !thorough {
-					// quick: the full border (0, 1, 15, 16, 17, 31, 32, 33 ...) crossed, the rest sampled
 					edge := func(x int) bool { m := x % 16; return m == 0 || m == 1 || m == 15 }
-					if n != 12 {
-						if !(edge(la) && edge(lp)) || r.Intn(3) != 0 {
-							continue
-						}
-					} else if !(edge(la) && edge(lp)) && r.Intn(12) != 0 {
+					// quick: the whole 81 x 81 grid with the 96-bit IV; at the other IV lengths every border pair and a sample
+					if n != 12 && !(edge(la) && edge(lp)) && r.Intn(10) != 0 {
 						continue
 					}
 				}
@@ -331,15 +335,25 @@ func gen(seed uint64, tier string, o *hx.Out) {
 		g(r.Bytes(16), genIV(r, n), r.Bytes(r.Intn(maxBig/8)), r.Bytes(r.Intn(maxBig+1)))
 	}
 	// 16-byte IVs constructed so that J0 ends in fffffffe / ffffffff / fffffffd: the counter wraps inside the message
-	nWrap := 6
+	nWrap := 30
 	if thorough {
-		nWrap = 60
+		nWrap = 200
 	}
 	for i := 0; i < nWrap; i++ {
 		key := r.Bytes(16)
-		low := uint32(0xffffffff) - uint32(r.Intn(4))
-		g(key, wrapIV(r, key, low), r.Bytes(r.Intn(20)), r.Bytes(16*r.Intn(8)+r.Intn(16)))
+		low := uint32(0xffffffff) - uint32(i%2) // J0 ends in ff ff ff ff or ff ff ff fe: the counter wraps in block 1 or 2
+		if i%5 == 4 {
+			low = uint32(0xffffffff) - uint32(2+r.Intn(3))
+		}
+		g(key, wrapIV(r, key, low), r.Bytes(r.Intn(20)), r.Bytes(16*(3+r.Intn(6))+r.Intn(16))) // at least 3 blocks
 	}
+	// 64 KiB of additional data, and 64 KiB of plaintext (the model runner needs a few seconds for each)
+	big := "B"
+	if thorough {
+		big = "G" // thorough: also through the extracted model
+	}
+	emit(fmt.Sprintf("%s %d %s %s %s %s - - %s", big, next(), hx.Hex(r.Bytes(16)), hx.Hex(r.Bytes(12)), hx.Hex(r.Bytes(65536)), hx.Hex(r.Bytes(33)), hx.Hex(r.Bytes(5))))
+	emit(fmt.Sprintf("%s %d %s %s %s %s %s - -", big, next(), hx.Hex(r.Bytes(16)), hx.Hex(r.Bytes(12)), hx.Hex(r.Bytes(21)), hx.Hex(r.Bytes(65536)), hx.Hex(r.Bytes(7))))
 	// key lengths other than 16: Sm4GCM returns an error
 	for _, L := range []int{0, 1, 15, 17, 24, 32} {
 		g(r.Bytes(L), r.Bytes(12), r.Bytes(5), r.Bytes(20))
@@ -414,17 +428,18 @@ func gen(seed uint64, tier string, o *hx.Out) {
 		emit(fmt.Sprintf("Q %d %s", next(), strings.Join(calls, ",")))
 	}
 	// every single-bit change of IV, A, C and T for a few messages: the recomputed tag must differ from T
-	nMsg := 3
+	// IV lengths 12, 16, 17, 60 (and more in thorough); |A| and |C| cross the 16- and 32-byte boundaries
+	flipShapes := [][3]int{{12, 20, 33}, {16, 17, 20}, {17, 33, 17}, {60, 16, 35}, {1, 1, 16}, {8, 32, 31}, {13, 15, 48}, {64, 31, 1}}
+	nMsg := 4
 	if thorough {
-		nMsg = 12
+		nMsg = 16
 	}
 	for i := 0; i < nMsg; i++ {
 		key := r.Bytes(16)
-		iv := genIV(r, r.Pick([]int{12, 12, 1, 7, 16, 20}))
-		a := r.Bytes(1 + r.Intn(24))
-		p := r.Bytes(1 + r.Intn(40))
-		if i == 0 {
-			iv, a, p = r.Bytes(12), r.Bytes(20), r.Bytes(33)
+		sh := flipShapes[i%len(flipShapes)]
+		iv, a, p := genIV(r, sh[0]), r.Bytes(sh[1]), r.Bytes(sh[2])
+		if i >= len(flipShapes) {
+			a, p = r.Bytes(1+r.Intn(40)), r.Bytes(1+r.Intn(50))
 		}
 		C, T, err := sm4.Sm4GCM(key, iv, p, a, true)
 		if err != nil {
